@@ -319,6 +319,8 @@ def run(facts, rep, tier, file_filter=None, pid="C02"):
         from . import C03
         from .C06 import _Sub
         C03.reveal(facts, _Sub(rep, "C02"))
+        from . import C07
+        C07.inliner_keeps_annotations(facts, rep, "C02")
 
 
 # ----------------------------------------------------------------------------- C02.K
